@@ -208,6 +208,17 @@ def _build_missing_sections_dict(
     return {name: template_sections[name] for name in missing_names if name in template_sections}
 
 
+def _merge_keeps_existing_settings(merged_content: str, existing_config: dict) -> bool:
+    """Check that the merged text is valid YAML in which every existing setting kept its value."""
+    try:
+        merged = yaml.safe_load(merged_content)
+    except yaml.YAMLError:
+        return False
+    if not isinstance(merged, dict) or not isinstance(existing_config, dict):
+        return False
+    return all(key in merged and merged[key] == value for key, value in existing_config.items())
+
+
 def _report_merge_results(missing_names: list[str], output: str) -> None:
     """Report which sections were added."""
     click.echo(f"Added {len(missing_names)} missing linter section(s) to {output}:")
@@ -238,6 +249,11 @@ def perform_merge(
 
     missing_sections = _build_missing_sections_dict(missing_names, template_sections)
     merged_content = merge_config_sections(existing_content, missing_sections)
+    if not _merge_keeps_existing_settings(merged_content, existing_config):
+        # Layouts a textual merge cannot extend (flow-style root, "..." end marker, trailing "|+" scalar)
+        click.echo(f"Error: Could not add sections to {output} without changing it", err=True)
+        click.echo("Add them by hand or use --force to overwrite with a fresh config", err=True)
+        sys.exit(1)
     output_path.write_text(merged_content, encoding="utf-8")
 
     _report_merge_results(missing_names, output)
